@@ -62,20 +62,26 @@ def _features(net, starts):
 # ---- checks ------------------------------------------------------------------------------------
 
 def _check_topsort(c, net, col):
+    """returns True iff top_sort(inverse=True) behaved (the topsort_unvisited hook order depends on it)"""
     labels = list(net.gates)
+    good = True
     for inverse in (False, True):
-        base = 'inverse' if inverse else 'forward'
+        base = ''
         feats = _features(net, ())
         feats.discard('empty-start')
+        if inverse:
+            feats.add('inverse')
         rp = {'kind': 'bounded', 'netlist': net.to_json(), 'call': f'top_sort(inverse={inverse})'}
         try:
             seq = [g.label for g in c.top_sort(inverse=inverse)]
         except Exception as e:
             col.add('C20/top_sort/returns-normally', base, feats, len(labels), K.exc_str(e), rp)
+            good = False
             continue
         rp['observed'] = seq
         if Counter(seq) != Counter(labels):
             col.add('C20/top_sort/every-gate-once', base, feats, len(labels), f'yields {seq}, gates {labels}', rp)
+            good = False
             continue
         pos = {l: i for i, l in enumerate(seq)}
         for g, (_, ops) in net.gates.items():
@@ -83,11 +89,15 @@ def _check_topsort(c, net, col):
                 if (pos[o] > pos[g]) if inverse else (pos[o] < pos[g]):
                     col.add('C20/top_sort/dependency-order', base, feats, len(labels),
                             f'{g} and its operand {o} in wrong order in {seq}', rp)
+                    good = False
+    return good
 
 
 def _check_traverse(c, net, mode, inverse, starts, topsort_unvisited, col):
-    base = ('inverse' if inverse else 'forward')
+    base = ''
     feats = _features(net, starts)
+    if inverse:
+        feats.add('inverse')
     size = len(net.gates) * 10 + (len(starts) if starts is not None else 0)
     events = []
     unv = []
@@ -162,13 +172,13 @@ def _start_sets(labels, rng, exhaustive):
 
 def _check_net(net, rng, exhaustive_starts, col):
     c = N.build(net)
-    _check_topsort(c, net, col)
+    ts_good = _check_topsort(c, net, col)
     n = 0
     labels = list(net.gates)
     for starts in _start_sets(labels, rng, exhaustive_starts):
         for mode in ('dfs', 'bfs'):
             for inverse in (False, True):
-                for tu in (False, True):
+                for tu in ((False, True) if ts_good else (False,)):     # a top_sort defect is reported once, under top_sort
                     _check_traverse(c, net, mode, inverse, starts, tu, col)
                     n += 1
     return n + 2
@@ -346,12 +356,6 @@ def run_bounded(rep, quick):
             tasks.append(('cyclic-random', 2000, p))
     col = K.Collector()
     for kind, cases, keys, samples, items in K.run_chunks(_worker, tasks, quick):
-        name = CYC if kind.startswith('cyclic') else NAME
-        d = rep.bounded[name]
-        d['evaluations'] += cases
-        d['nontrivial'] |= keys
-        for s in samples:
-            if len(d['samples']) < 3:
-                d['samples'].append(s)
+        K.account(rep, CYC if kind.startswith('cyclic') else NAME, cases, keys, samples)
         col.merge(items)
     col.flush(rep)
